@@ -59,6 +59,14 @@ class CoreSummaries:
             I.st.obligations[-1].replay = {'kind': 'metadata_shape', 'when': 'any'}
             mdt = z3.Const(sym.fresh_name('md_any'), sym.SeqMdS)
         g = I.st.ghost
+        if isinstance(x, VList) and isinstance(recv, VObj):
+            # aliasing: the object handed downstream must not be one of the node's own live containers, otherwise elements
+            # the node appends later show up inside a batch that has already been delivered (and are delivered again)
+            for fname, fv in I.st.heap[recv.loc].fields.items():
+                if isinstance(fv, VList) and fv.loc == x.loc:
+                    I.oblige('emit.emitted_object_is_not_a_live_buffer_of_the_node', False, kind='callsite',
+                             note='self.%s itself is passed to _emit' % fname)
+                    I.st.obligations[-1].props = ['C08', 'C02', 'C01']
         g['emitted'] = VSeq(z3.Concat(g['emitted'].t, z3.Unit(I.as_elem(x))), K_ELEM)
         g['emitted_md'] = VSeq(z3.Concat(g['emitted_md'].t, z3.Unit(mdt)), K_MD)
         I.set_attr(recv, 'current_value', x)
@@ -72,6 +80,7 @@ class CoreSummaries:
                 raise PyRaise(VExc('DownstreamError'))
         ret = z3.Const(sym.fresh_name('emit_ret'), sym.SeqAwS)
         g['emit_rets'] = VSeq(z3.Concat(g['emit_rets'].t, z3.Unit(ret)), sym.K_AWS)
+        g['_last_emit_ret'] = ret
         return I.st.new_list(ret, K_AW)
 
     # ---- Stream._retain_refs / _release_refs  (effect on the skolem counter R)
